@@ -1019,7 +1019,13 @@ def _is_self_field(p, field):
 def _calls_to(m, suffix):
     from .facts import short_path
     sfx = short_path(suffix)
-    return [(bb, t) for bb, t in m.calls() if short_path((m.callee(t) or {}).get("path", "")).endswith(sfx)]
+    prog = m.fn.prog
+    out = []
+    for bb, t in m.calls():
+        pth = (m.callee(t) or {}).get("path", "")
+        if short_path(pth).endswith(sfx) or (pth and prog.canon(pth).endswith(sfx)):
+            out.append((bb, t))
+    return out
 
 
 def _replace_flushers(prog, pr):
